@@ -3,6 +3,31 @@
 
 use crate::lexer::TokKind;
 use crate::parser::{P, R};
+use std::cell::Cell;
+
+thread_local! {
+    /// number of type-syntax constructs (annotations, return types, generic lists, casts, type declarations, type
+    /// instantiations) and of attributes met by the parser on this thread since the last reset (see `crate::census`)
+    pub(crate) static TYPE_SYNTAX: Cell<usize> = const { Cell::new(0) };
+    pub(crate) static ATTRIBUTES: Cell<usize> = const { Cell::new(0) };
+}
+
+thread_local! {
+    /// kinds (and payloads) of the nodes parsed inside `typeof(...)` and then dropped from the node table
+    pub(crate) static DISCARDED: std::cell::RefCell<Vec<(String, Vec<u8>, usize)>> = const { std::cell::RefCell::new(Vec::new()) };
+}
+
+pub(crate) fn note_discarded(nodes: &[crate::Node]) {
+    DISCARDED.with(|d| d.borrow_mut().extend(nodes.iter().map(|n| (n.k.clone(), n.s.clone(), n.c))));
+}
+
+pub(crate) fn note_type_syntax() {
+    TYPE_SYNTAX.with(|c| c.set(c.get() + 1));
+}
+
+pub(crate) fn note_attribute() {
+    ATTRIBUTES.with(|c| c.set(c.get() + 1));
+}
 
 /// What a parenthesised construct turned out to be.
 #[derive(Debug, Clone, Copy, PartialEq, Eq)]
@@ -29,6 +54,7 @@ impl P {
     /// A single type: optional leading `|`/`&`, a simple type, then union / intersection /
     /// optional suffixes.
     pub(crate) fn parse_type(&mut self) -> R<()> {
+        note_type_syntax();
         let mut union = false;
         let mut inter = false;
         if self.accept_sym(b"|") {
@@ -71,6 +97,7 @@ impl P {
 
     /// A type or a type pack (generic arguments, defaults, explicit instantiation).
     pub(crate) fn parse_type_or_pack(&mut self) -> R<()> {
+        note_type_syntax();
         if self.is_dots() {
             self.advance();
             return self.parse_type();
@@ -102,6 +129,7 @@ impl P {
 
     /// After `:` of a function declaration or `->` of a function type.
     pub(crate) fn parse_return_type(&mut self) -> R<()> {
+        note_type_syntax();
         if !self.is_sym(b"(") {
             if self.is_dots() {
                 self.advance();
@@ -229,6 +257,7 @@ impl P {
                     self.expect_sym(b"(")?;
                     let mark = self.nodes.len();
                     self.expr()?;
+                    note_discarded(&self.nodes[mark..]);
                     self.nodes.truncate(mark);
                     self.expect_sym(b")")?;
                     return Ok(Ty::Type);
@@ -283,6 +312,7 @@ impl P {
 
     /// `< T [= D], U... [= P] >` generic declaration list; defaults only where allowed.
     pub(crate) fn generic_decl_list(&mut self, with_defaults: bool) -> R<()> {
+        note_type_syntax();
         self.expect_sym(b"<")?;
         let mut seen_pack = false;
         let mut seen_default = false;
